@@ -8,9 +8,9 @@ CHECK = {
     "harness": ["actor/zz_verif_c19.go", "internal/cluster/zz_verif_c19.go"],
     "descend_extra": ["github.com/reugn/go-quartz"],
     "entries": [
-        {"fn": P + "vC19_book", "replay": "model-only", "cases_quick": {"ops": [3]}, "cases_thorough": {"ops": [4]}},
+        {"fn": P + "vC19_book", "replay": "model-only", "cases_quick": {"ops": [3]}, "cases_thorough": {"ops": [5]}},
         {"fn": P + "vC19_claim", "replay": "model-only", "opts": {"substitute": dict(SUB, **{"fmt.Sprintf": P + "vC19_sprintf"})},
-         "cases_quick": {"nodes": [2]}, "cases_thorough": {"nodes": [3]}},
+         "cases_quick": {"nodes": [2]}, "cases_thorough": {"nodes": [4]}},
         {"fn": P + "vC19_ttl", "replay": "model-only"},
     ],
     "opts": {"unwind": 8, "substitute": SUB},
@@ -21,7 +21,7 @@ CHECK = {
                    "vC19_claim: N nodes (own scheduler and actor system each) handle the same cron schedule: real makeJobFn + claimClusterFire + (*cluster).ClaimScheduleFire, with (*cluster).putRecordIfAbsent substituted by one shared put-if-absent registry (stored / already present / storage failure); per node symbolic: which of two ticks, lag (library clock: arbitrary non-decreasing), tick metadata present, cluster engine present / running, storage failure. "
                    "The registry write is one atomic storage operation per node, so all interleavings of the racing nodes are the orders in which the harness runs them (the tick chosen per node is arbitrary). fmt.Sprintf is substituted in this entry by an exact equivalent for the claim key format and the two tick times (asserted). "
                    "vC19_ttl: cronClaimTTL for a trigger with arbitrary next-fire times / errors is within [1 min, 24 h] and equals the period inside the bounds.",
-    "bounds": {"book": "quick 3 / thorough 4 operations, 2 references", "claim": "quick 2 / thorough 3 nodes, 2 ticks, ttl in [1 min, 24 h]", "registry": "entries do not expire during the scenario (claim-entry expiry vs. the stale-tick rule is not modelled)"},
+    "bounds": {"book": "quick 3 / thorough 5 operations, 2 references", "claim": "quick 2 / thorough 4 nodes, 2 ticks, ttl in [1 min, 24 h]", "registry": "entries do not expire during the scenario (claim-entry expiry vs. the stale-tick rule is not modelled)"},
     "assumptions": ["go-quartz is replaced by a keyed job set: its timing, misfire and execution semantics are outside the claim", "registry entries outlive the scenario (TTL expiry of claim entries is not modelled)",
                     "a node's registry write is atomic (olric NX put)"],
 }
